@@ -12,6 +12,9 @@ var vEnumCorpus = []string{
 	"[]",
 	"[\"\\u0041\\n\", -0.5]",
 	"[1] # user comment\n### block ###",
+	"[1] /* note after the list */",
+	"[] // trailing note",
+	"[\"a\"]\n/* a\n b */ ",
 }
 
 func vEnumText() []byte {
